@@ -19,6 +19,7 @@ open Verif.Props.C04
 #print axioms passthrough_token
 #print axioms passthrough_raw
 #print axioms writeRaw_plain
+#print axioms function_args_apart
 #print axioms bg_position_layer_ok
 #print axioms bg_position_ok
 #print axioms keepcss2_no_exponent
